@@ -425,7 +425,7 @@ def rule_type_table(ctx):
             n += 1
             info = p.value.items[0] if p.outcome == "return" and isinstance(p.value, Lst) and p.value.items and isinstance(p.value.items[0], Dct) else None
             got = (val(info.items.get("type")), val(info.items.get("precision")), val(info.items.get("scale")), val(info.items.get("length"))) if info else None
-            ok = got == (sf, prec, scale, length)
+            ok = got == (sf, prec, scale, length) and (info is None or val(info.items.get("byteLength")) == length)  # the connector reports both lengths
             ctx.ob("C06.f", f"DuckDB {duck} -> ({sf}, precision {prec}, scale {scale}, length {length})", ok, loc, str(got))
             if not ok:
                 what = f"is described as {got}" if got else f"raises {p.value.cls if p.outcome == 'raise' else '?'}"
